@@ -828,7 +828,8 @@ func (db *DBStore) SupplementTipTransaction(txn types.Transaction) (ts consensus
 // SupplementTipBlock implements Store.
 func (db *DBStore) SupplementTipBlock(b types.Block) (bs consensus.V1BlockSupplement) {
 	height := db.getHeight()
-	if height >= db.n.HardforkV2.RequireHeight {
+	// the supplement is for the child of the tip, which is at height+1
+	if height+1 >= db.n.HardforkV2.RequireHeight {
 		return consensus.V1BlockSupplement{Transactions: make([]consensus.V1TransactionSupplement, len(b.Transactions))}
 	}
 
